@@ -40,6 +40,7 @@ from beartype._util.cache.utilcachecall import (
     method_cached_arg_by_id,
     property_cached,
 )
+from beartype._util.cls.pep.clspep3119 import is_type_subclass_or_nominal
 from beartype._util.hint.pep.utilpepget import (
     get_hint_pep_args,
     get_hint_pep_origin_type_or_none,
@@ -915,7 +916,7 @@ class TypeHint(Generic[T_Hint], metaclass=_TypeHintMetaclass):
         # If the type originating this hint is *NOT* a subclass of the type
         # originating that branch, this hint *CANNOT* be a subhint of that
         # branch. Return false immediately.
-        if not issubclass(self._origin, branch._origin):
+        if not is_type_subclass_or_nominal(self._origin, branch._origin):
             return False
         # Else, the class originating this hint is a subclass of the class
         # originating that branch. In this case, this hint *COULD* be a subhint
